@@ -427,6 +427,10 @@ void frequent_items_sketch<T, W, H, E, A>::check_size(uint8_t lg_cur_size, uint8
   if (lg_cur_size < LG_MIN_MAP_SIZE) {
     throw std::invalid_argument("Possible corruption: lg_cur_size must not be less than " + std::to_string(LG_MIN_MAP_SIZE) + ": " + std::to_string(lg_cur_size));
   }
+  // the hash map computes its size as 1 << lg_size in 32 bits
+  if (lg_max_size > 30) {
+    throw std::invalid_argument("Possible corruption: lg_max_size must not be greater than 30: " + std::to_string(lg_max_size));
+  }
 }
 
 template<typename T, typename W, typename H, typename E, typename A>
